@@ -14,6 +14,7 @@ THEOREMS = [
     "Remoc.Link.shared_queue_drains",
     "Remoc.Link.non_interference",
     "Remoc.Link.no_slot_without_credit",
+    "Remoc.Link.declined_chunk_returns_credit",
 ]
 RULE = ("same runs as C01 plus the corpus witnesses of F2/F3; predicates on the real trace at every quiescent point of a healthy "
         "transport (both sinks open, wires drained): no send/port batch pending while the receiver is waiting with nothing buffered; "
